@@ -11,6 +11,8 @@ def showFound : Found → String
   | .unknown => "U"
   | .ambiguous ns => "A" ++ ",".intercalate (ns.map hex)
 
+/- (an iterator equal to `end()` — index = number of options, possible only through the entry a refused add left behind — is what the
+    harness prints as "-" for `tryFind`) -/
 /-- `oi <o:hexname:alias | a:hexalias:opt | q:hexkey:type>*` -/
 def oiLoop : Ctx → List String → List String → List String
   | _, [], acc => acc.reverse
@@ -20,18 +22,18 @@ def oiLoop : Ctx → List String → List String → List String
       match unhex n, a.toNat? with
       | some n, some a => match c.addOption n a with
         | some c' => oiLoop c' ts ("ok" :: acc)
-        | none => ("DUP" :: acc).reverse
+        | none => oiLoop (c.afterRefused a) ts ("DUP" :: acc)      -- the caller goes on using the context
       | _, _ => ("bad-op" :: acc).reverse
     | ["a", n, o] =>
       match unhex n, o.toNat? with
       | some n, some o => match c.addAlias n o with
         | some c' => oiLoop c' ts ("ok" :: acc)
-        | none => ("DUP" :: acc).reverse
+        | none => oiLoop c ts ("DUP" :: acc)
       | _, _ => ("bad-op" :: acc).reverse
     | ["q", k, ty] =>
       match unhex k, ftOf ty with
       | some k, some ty =>
-        let r := s!"{showFound (find c.index k ty)}/{match tryFind c.index k ty with | some o => s!"={o}" | none => "-"}"
+        let r := s!"{showFound (find c.index k ty)}/{match tryFind c.index k ty with | some o => (if o == c.nOpts then "-" else s!"={o}") | none => "-"}"
         oiLoop c ts (r :: acc)
       | _, _ => ("bad-op" :: acc).reverse
     | _ => ("bad-op" :: acc).reverse
